@@ -201,6 +201,7 @@ def _run(case, data, meta, watch, cuts, ctx, tag):
     early = []
     ends = [m[2] for m in meta]
     conn = K.make_conn(case["version"])
+    conn.step_budget = 4 * (len(cuts) + 1 + len(meta)) + 64
     queues = {}
     for f in case["frames"]:
         if "event" not in f and f.get("reg", True):
